@@ -74,3 +74,24 @@ def origin_of_local(body, local_id, seen=None):
             if lid != local_id:
                 out |= origin_of_local(body, lid, seen)
     return out
+
+
+def decomposition_dispatch(fx, body):
+    """How a task body turns one problem into its sub-problems: [(strategy pattern, [methods called])] from a `match` over Decomposition in the
+    body itself, or - when the body calls Problem::decompose(strategy) - from the match inside Problem::decompose."""
+    from .facts import callee_generic, walk
+    from . import hq
+
+    def table(b_):
+        disp = []
+        for m in hq.matches_over(b_, "command_line::arguments::Decomposition"):
+            for a in m["arms"]:
+                cs = [hq.last(c) for c in (callee_generic(n) for n in walk(a["body"]) if n.get("k") == "MethodCall") if c]
+                disp.append((hq.pat_key(a["pat"]), cs))
+        return sorted(disp)
+    own = table(body)
+    if own:
+        return own
+    if hq.calls(body, "Problem::decompose"):
+        return table(fx.fn("Problem::decompose")["body"])
+    return []
